@@ -33,7 +33,7 @@ RICH = [
     'F in Xs', 'F in 1..3', 'F in [1, 2]', '1.5 in Xs', 'F not in Ys', 'count(Xs, {F in Ys})', 'filter(Xs, {# in [F, 1.5]})', 'F in A..B',
     'Any in [1, 2, 3]', 'Any == 1', 'Any in Xs', 'Any in 1..3', 'Any == nil', 'Any in ["a", "b"]', 'Any != A',
 ]
-TOP_EXTRA = ['I8 == {I}', '{I} == I8', 'I8 == U8', 'U8 == I8', 'I8 in Xs', 'I8 + {I}', 'I8 * I8', 'I64 == I8', 'I8 < {I}', '-I8', 'count(Xs, {# == I8})', '{I} == U8', 'I64 == {I}', '{I} == I64', 'U8 == I64', 'I64 == U8', '{I} != U8', 'U8 in Xs', 'A in [U8, I64]', '{I} < U8', 'I64 >= U8', 'Pair(A, B)[1]', 'Pair(A, B, 3)[2] - Pair(B, A)[1]', 'Pair(A)[0] + Pair(B, A)[0]', 'Vv(A, B)', 'Vf(S, A)', 'Ptr?.V', 'Ptr?.Next?.V', 'Ptr.Next', '[{I}, {B}]', '{{a: {I}, b: {S}}}', '{L}', '{S}[{I}]', 'M', 'nil', '{B} ? {I} : nil', '{I}..{I}', 'I64 + {I}', 'U8 + {I}', 'U8 * U8', 'I64 / {I}', '-U8', 'U8 == {I}', 'I64 < {F}',
+TOP_EXTRA = ['I8 == {I}', '{I} == I8', 'I8 == U8', 'U8 == I8', 'I8 in Xs', 'I8 + {I}', 'I8 * I8', 'I64 == I8', 'I8 < {I}', '-I8', 'count(Xs, {{# == I8}})', '{I} == U8', 'I64 == {I}', '{I} == I64', 'U8 == I64', 'I64 == U8', '{I} != U8', 'U8 in Xs', 'A in [U8, I64]', '{I} < U8', 'I64 >= U8', 'Pair(A, B)[1]', 'Pair(A, B, 3)[2] - Pair(B, A)[1]', 'Pair(A)[0] + Pair(B, A)[0]', 'Vv(A, B)', 'Vf(S, A)', 'Ptr?.V', 'Ptr?.Next?.V', 'Ptr.Next', '[{I}, {B}]', '{{a: {I}, b: {S}}}', '{L}', '{S}[{I}]', 'M', 'nil', '{B} ? {I} : nil', '{I}..{I}', 'I64 + {I}', 'U8 + {I}', 'U8 * U8', 'I64 / {I}', '-U8', 'U8 == {I}', 'I64 < {F}',
              'FnU8(U8)', 'FnI64(I64)', 'FnF({F})', 'map({L}, {{[#, {I}]}})', 'map({L}, {{# > {I} ? # : nil}})']
 ATOMS = {'I': ['A', 'B', '3', '0'], 'B': ['P', 'Q', 'true'], 'S': ['S', 'T', '"a"'], 'L': ['Xs', 'Ys', '1..3'], 'F': ['F', '1.5']}
 CLOSURE_ATOMS = {'I': ['#', 'A', '2'], 'B': ['Pf(#)', '# > A', 'P'], 'S': ['S', '"a"'], 'L': ['Ys', 'Xs'], 'F': ['F']}
